@@ -11,6 +11,7 @@ func init() { runners["C04"] = runC04 }
 // verbatim bodies rendered under two contexts.
 func runC04(cases string, res *Result) {
 	c04LongText(res)
+	c04OtherRoutes(cases, res)
 	readCases(cases, func(c Case) {
 		src := c.hexs("src")
 		stream := c.str("stream")
